@@ -276,7 +276,17 @@ def eval_dist(rp):
 
 
 # ----------------------------------------------------------------------------- B: mixture models
-def case_model(rng, tier, i, name=None, large=False):
+_PROFILE = {}
+
+
+def near_one_gains(rng, shape, real=False, width=8e-6):
+    """gains whose magnitude is within `width` of one (an observation that is ALMOST normalised already is still an
+    observation with gains: c.y must give what y gives)"""
+    mag = 1.0 + rng.uniform(-width, width, size=shape)
+    return mag if real else mag * np.exp(2j * np.pi * rng.random(shape))
+
+
+def case_model(rng, tier, i, name=None, large=False, profile=None):
     name = name or DIRECTIONAL[int(rng.integers(0, len(DIRECTIONAL)))]
     K = int(rng.integers(2, 5))
     D = int(rng.integers(2, 6))
@@ -294,6 +304,12 @@ def case_model(rng, tier, i, name=None, large=False):
         lead = (1,) if name in mm.INTEGRATION else ()
     data = mm.make_data(rng, name, K, D, N, lead, separation=float(rng.choice([0.5, 2.0, 8.0])))
     data = {k: v for k, v in data.items() if k != 'labels'}
+    if profile == 'near1':
+        # unit-norm frames (as a caller who normalised beforehand would pass them), gains within 8e-6 / 1e-7 of one
+        data = {k: (v / np.linalg.norm(v, axis=-1, keepdims=True) if k in ('y', 'observation', 'embedding') else v) for k, v in data.items()}
+    if profile == 'single':
+        # single-precision STFT next to a double-precision embedding whose gains leave the float32 range
+        data['observation'] = data['observation'].astype(np.complex64)
     style = ['positive', 'dirichlet'][int(rng.integers(0, 2))]
     init = mm.make_init(rng, K, N, lead, style)
     opts = mm.sample_options(rng, name, K, N, lead, with_aligner=(rng.random() < 0.15))
@@ -312,6 +328,13 @@ def case_model(rng, tier, i, name=None, large=False):
         ce = gains(rng, data['y'].shape[:-1] + (1,), real=True)
     else:
         cs = gains(rng, data['y'].shape[:-1] + (1,))
+    if profile == 'near1':
+        _PROFILE[name] = _PROFILE.get(name, 0) + 1
+        width = [8e-6, 1e-7][_PROFILE[name] % 2]
+        cs = None if cs is None else near_one_gains(rng, cs.shape, width=width)
+        ce = None if ce is None else near_one_gains(rng, ce.shape, real=True, width=width)
+    if profile == 'single':
+        cs, ce = None, gains(rng, data['embedding'].shape[:-1] + (1,), real=True)
     u = rng.random()
     start = 'num_classes' if (u < 0.1 and 'source_activity_mask' not in opts) else ('model' if (u < 0.3 and name == 'cacgmm') else 'init')
     rp = {'fn': 'model', 'model': name, 'data': data, 'init': init, 'cs': cs, 'ce': ce, 'start': start,
@@ -319,11 +342,11 @@ def case_model(rng, tier, i, name=None, large=False):
           'opts': {k: v for k, v in opts.items() if k != 'inline_permutation_aligner'},
           'aligner': 'inline_permutation_aligner' in opts, 'iterations': iters, 'pick': int(rng.integers(0, 2 ** 31))}
     sp = max(span(c) for c in (cs, ce) if c is not None)
-    label = 'fit/predict %s K=%d D=%d N=%d lead=%s iters=%d start=%s gains=%s span 1e%.0f opts=%s' % (
-        name, K, D, N, lead, iters, style if start == 'init' else start, '+'.join(s for s, c in (('spatial', cs), ('embedding', ce)) if c is not None), sp,
+    label = 'fit/predict %s%s K=%d D=%d N=%d lead=%s iters=%d start=%s gains=%s span 1e%.0f opts=%s' % (
+        name, '' if profile is None else '/' + profile, K, D, N, lead, iters, style if start == 'init' else start, '+'.join(s for s, c in (('spatial', cs), ('embedding', ce)) if c is not None), sp,
         mm.describe_options(opts))
     fail, key, coq, nt = eval_model(rp)
-    return Case(label, coq=coq, pred_fail=fail, key=key, nontrivial=bool(nt and sp >= 20),
+    return Case(label, coq=coq, pred_fail=fail, key=key, nontrivial=bool(nt and (sp >= 20 or profile == 'near1')),
                 digest_=core.digest(label, *data.values(), init, *[c for c in (cs, ce) if c is not None]),
                 sample={'name': label}, replay=rp, kind='model/' + name)
 
@@ -351,6 +374,7 @@ def eval_model(rp):
     pk = {'source_activity_mask': mask} if (name == 'cacgmm' and mask is not None) else {}
     # after fitting the cBMM parameters come out of scipy.optimize.least_squares (stopping tolerance 1e-8)
     tol = 1e-6 if name == 'cbmm' else 1e-9 * (1 if iters == 1 else 10)
+    single = any(v.dtype in (np.complex64, np.float32) for v in data.values())
     start = rp.get('start', 'init')
 
     def run(dd, first):
@@ -386,6 +410,9 @@ def eval_model(rp):
         lam_min = min(float((np.min(r['model'].cacg.covariance_eigenvalues, axis=-1)
                              / np.max(r['model'].cacg.covariance_eigenvalues, axis=-1)).min()) for r in tr1)
     ptol = max(1e-9, 1e-13 / lam_min)
+    if single:
+        # a 1e-16 difference in the double-precision stream can flip a float32 rounding of the spatial stream
+        ptol = max(ptol, 1e-3)
     tol = max(tol, 10 * ptol if iters > 1 else ptol)
     well = tol <= 1e-7 or name == 'cbmm'
     # E-step alone: the same fitted model applied to y and to c.y
@@ -459,8 +486,8 @@ def eval_model(rp):
             return ('cacgmm: log_likelihood %.12g (y) vs %.12g (c*y, same model) vs %.12g (c*y, refitted)' % (ll1, ll3, ll2),
                     'model:loglik:cacgmm', None, False)
     nt = well and K >= 2 and bool(((p11 > 0.01) & (p11 < 0.99)).any())
-    if N > 2000:
-        return None, None, None, nt          # no Coq literal for a long recording: the predicates above decide
+    if N > 2000 or single:
+        return None, None, None, nt          # no Coq literal for a long recording / single precision: the predicates above decide
     return None, None, coq_model(rp, name, data, d2, cs, ce, tr1, opts, m1, m2, tap1, tap2, lead, K, N), nt
 
 
@@ -546,7 +573,10 @@ def cases(rng, tier):
     for i in range(35 if q else 350):
         out.append(case_dist(rng, tier, i))
     for i in range(66 if q else 660):
-        out.append(case_model(rng, tier, i, name=DIRECTIONAL[i % len(DIRECTIONAL)]))
+        out.append(case_model(rng, tier, i, name=DIRECTIONAL[i % len(DIRECTIONAL)],
+                              profile='near1' if (i // len(DIRECTIONAL)) % 4 == 3 else None))
+    for i in range(2 if q else 12):
+        out.append(case_model(rng, tier, i, name='vmfcacgmm', profile='single'))
     for i in range(3 if q else 12):
         out.append(case_model(rng, tier, i, name=['cacgmm', 'cwmm', 'vmfmm', 'cacgmm'][i % 4], large=True))
     return out
